@@ -16,27 +16,30 @@ IU = "pandapipes.io.io_utils"
 CF = "pandapipes.io.convert_format"
 
 EXPLANATION = (
-    "(R15.1) all subclasses of JSONSerializableClass defined in the package are enumerated; every attribute they "
-    "assign (self.x = ..., including through update_/init_ helpers) is classified from its defining expression: "
-    "literals, parameters, arrays, numbers, strings and other serialisable objects are JSON-native, results of "
-    "interp1d / np.poly1d / np.polyint / interpolation_function are not. A non-native attribute must be listed in "
-    "json_excludes AND the class must define to_dict and from_dict such that the keys to_dict adds are the keys "
-    "from_dict consumes and from_dict rebuilds the attribute. (R15.2) to_json encrypts after dumping and "
-    "from_json_string decrypts before loading, from_json forwards the key; to_pickle/from_pickle use the same geodata "
-    "table lists; the net encoder drops exactly the keys starting with '_'; the decoder registry has an arm for every "
-    "class the encoder writes a signature for (pandapipesNet, MultiNet, serialisable classes, component classes); "
-    "MODULE_CHANGES targets exist; member nets of a MultiNet are converted individually. (R15.3) every column that "
-    "convert_format renames to is a column of the component's get_component_input. (R15.4) loading runs "
-    "convert_format on every file, so for a net of the current format it must be the identity: every store into the "
-    "net that precedes its `format_version >= current` return (with the helper steps inlined) is guarded by the "
-    "*absence* of the key it sets (`k not in net`, `not hasattr(net, k)`, `net.get(k) is None`), never by a test on the "
-    "value, and add_default_components is called without overwrite. (R15.7) the isinstance hook handed to the encoder excepts only the pandapipes net classes and delegates every other object "
-    "to pandapower's isinstance_partial (which keeps tuples tagged). (R15.6) custom to_dict/from_dict pairs agree unconditionally: to_dict never removes an entry from the "
-    "dictionary it returns and from_dict never invents a value (setdefault / constant fallback) the writer did not store. "
-    "(R15.5) a to_dict that copies private attributes "
-    "out of a library object (scipy's interp1d.__dict__) converts them to JSON-native values explicitly (.item(), "
-    ".tolist(), float() ...) because private state has no type contract. Not decided: equality of a loaded "
-    "net with the original (runtime; pandapower's encoder/decoder are trusted).")
+    '(R15.1) all subclasses of JSONSerializableClass defined in the package are enumerated; every attribute they assign '
+    '(self.x = ..., including through update_/init_ helpers) is classified from its defining expression: literals, '
+    'parameters, arrays, numbers, strings and other serialisable objects are JSON-native, results of interp1d / np.poly1d'
+    ' / np.polyint / interpolation_function are not. A non-native attribute must be listed in json_excludes AND the class'
+    ' must define to_dict and from_dict such that the keys to_dict adds are the keys from_dict consumes and from_dict '
+    'rebuilds the attribute. (R15.2) to_json encrypts after dumping and from_json_string decrypts before loading, '
+    'from_json forwards the key; to_pickle/from_pickle use the same geodata table lists; the net encoder drops exactly '
+    "the keys starting with '_'; the decoder registry has an arm for every class the encoder writes a signature for "
+    '(pandapipesNet, MultiNet, serialisable classes, component classes); MODULE_CHANGES targets exist; member nets of a '
+    'MultiNet are converted individually. (R15.3) every column that convert_format renames to is a column of the '
+    "component's get_component_input. (R15.4) loading runs convert_format on every file, so for a net of the current "
+    'format it must be the identity: every store into the net that precedes its `format_version >= current` return (with '
+    'the helper steps inlined) is guarded by the *absence* of the key it sets (`k not in net`, `not hasattr(net, k)`, '
+    '`net.get(k) is None`), never by a test on the value, and add_default_components is called without overwrite. (R15.7)'
+    ' the isinstance hook handed to the encoder excepts only the pandapipes net classes and delegates every other object '
+    "to pandapower's isinstance_partial (which keeps tuples tagged). (R15.6) custom to_dict/from_dict pairs agree "
+    'unconditionally: to_dict never removes an entry from the dictionary it returns and from_dict never invents a value '
+    '(setdefault / constant fallback) the writer did not store. (R15.5) a to_dict that copies private attributes out of a'
+    " library object (scipy's interp1d.__dict__) converts them to JSON-native values explicitly (.item(), .tolist(), "
+    'float() ...) because private state has no type contract. (R15.8) the from_dict classmethods of the std-type classes '
+    'set attributes of the restored object only from the stored dictionary or under an absence test (not hasattr / key '
+    'not in d); an unconditional store of a constant (sector reset to ALL) is a restored object that differs from the '
+    "saved one. Not decided: equality of a loaded net with the original (runtime; pandapower's encoder/decoder are "
+    'trusted).')
 ASSUMPTIONS = ["pandapower's PPJSONEncoder/PPJSONDecoder round-trip JSON-native values, numpy arrays, pandas objects and registered classes",
                "user-defined classes are outside the tree"]
 TECHNIQUE = "class-attribute provenance classification, writer/reader key-table agreement, registry agreement"
